@@ -4,12 +4,12 @@ set -u
 ID=$1; SRC=$2; shift 2; CHECKS=${*:-$ID}
 WT=$(mktemp -d /tmp/sv-$ID-XXXX); rmdir $WT
 git -C /repo worktree add -q --detach $WT HEAD || exit 3
-trap 'git -C /repo worktree remove --force $WT >/dev/null 2>&1; rm -rf /tmp/vf-scratch-out' EXIT
+trap 'git -C /repo worktree remove --force $WT >/dev/null 2>&1; rm -rf $WT.out' EXIT
 echo "== demo on pristine tree"; (cd $WT && timeout 300 env PYTHONPATH=$WT /venv/bin/python $SRC/demo.py $WT >/tmp/sv-$ID-pristine.log 2>&1); echo "exit=$?"
 git -C $WT apply $SRC/patch.diff || { echo "PATCH DOES NOT APPLY"; exit 3; }
 echo "== demo with the change"; (cd $WT && timeout 300 env PYTHONPATH=$WT /venv/bin/python $SRC/demo.py $WT >/tmp/sv-$ID-patched.log 2>&1); echo "exit=$?"
 echo "== existing tests with the change"; (cd $WT && PYTHONPATH=$WT /venv/bin/python -m pytest -q -p no:cacheprovider -x --deselect tests/http/proxy/test_http2.py::TestHttp2WithProxy::test_http2_via_proxy --deselect tests/http/test_client.py::TestClient::test_client --deselect tests/http/test_client.py::TestClient::test_http tests/common tests/core tests/http tests/plugin tests/socks tests/test_set_open_file_limit.py 2>&1 | tail -2)
 for c in $CHECKS; do
   echo "== check $c against the change"
-  VF_REPO=$WT timeout 1500 /verif/check $c --tier quick 2>&1 | grep -E "^VIOLATION|^  clause|^C[0-9]+ tier|HARNESS" | head -8
+  VF_OUT_DIR=$WT.out VF_REPO=$WT timeout 1500 /verif/check $c --tier quick 2>&1 | grep -E "^VIOLATION|^  clause|^C[0-9]+ tier|HARNESS" | head -8
 done
